@@ -1065,3 +1065,108 @@ def m_binary_search(ex, st, callee, args, dty, m):
         eq = value_eq(ex, seq.items[0], x)
         return ("__fork__", [(eq, mk_ok(dty, u64(0))), (z3.Not(eq), mk_err(dty, ex.fresh("bs_pos", "usize")))])
     return NotImplemented
+
+
+# ---------------------------------------------------------------- map / enumerate adaptors and sum / collect drivers
+@model(r"<(?:std|core)::slice::Iter(?:Mut)?<'_, .*> as Iterator>::(map|enumerate)(?:::<.*>)?$|<(?:std::iter::|core::iter::)?Enumerate<.*> as Iterator>::map::<.*>$")
+def m_iter_map(ex, st, callee, args, dty, m):
+    it = args[0]
+    base = deref(ex, it) if isinstance(it, Ref) else it
+    if not (isinstance(base, Agg) and base.name in ("SeqIter", "EnumIter")):
+        return NotImplemented
+    if callee.rstrip().endswith("enumerate") or "::enumerate" in callee.split("::<")[0][-12:]:
+        return Agg("struct", "EnumIter", [base])
+    return Agg("struct", "MapIter", [base, args[1]])
+
+
+def _adaptor_items(ex, it):
+    """items yielded by a SeqIter / EnumIter"""
+    if isinstance(it, Agg) and it.name == "EnumIter":
+        inner = _adaptor_items(ex, it.fields[0])
+        return None if inner is None else [Agg("tuple", "(usize,T)", [u64(i), x]) for i, x in enumerate(inner)]
+    return _seq_item_refs(ex, it)
+
+
+def sum_driver(ex, items, closure, dty, collect=False):
+    cbody = ex.closure_body(closure)
+    if cbody is None:
+        return NotImplemented
+    by_ref = cbody.args[0][1].lstrip().startswith("&")
+    n = len(items)
+    _DRIVER_COUNT[0] += 1
+    b = _MIR.Body("__iter_%s_%d" % ("collect" if collect else "sum", _DRIVER_COUNT[0]), "synthetic")
+    b.args = [("_1", "env")] + [("_%d" % (i + 2), "item") for i in range(n)]
+    b.locals = dict(b.args)
+    b.locals["_0"] = dty or "u64"
+    token = "__closure_call__%d" % _DRIVER_COUNT[0]
+    ex.models = [(re.compile(re.escape(token) + "$"), lambda ex_, st, callee, args, dt, mm, cb=cbody: ("__inline__", cb, args))] + list(ex.models)
+    acc = "_%d" % (n + 2)
+    b.locals[acc] = dty or "u64"
+    first = _MIR.Block("bb0", False)
+    b.blocks["bb0"] = first
+    if not collect:
+        first.stmts.append(("assign", ("local", acc), ("use", ("const", "0_" + (dty if dty in INT_TYPES else "u64")))))
+    first.term = ("goto", "bb1")
+    rs = []
+    for i in range(n):
+        r = "_%d" % (n + 3 + i)
+        rs.append(r)
+        b.locals[r] = (dty if dty in INT_TYPES else "u64") if not collect else "elem"
+        bb = _MIR.Block("bb%d" % (i + 1), False)
+        b.blocks[bb.name] = bb
+        bb.term = ("call", ("local", r), token, [("copy", ("local", "_1")), ("copy", ("local", "_%d" % (i + 2)))], {"return": "bb%d" % (i + 2)})
+    end = _MIR.Block("bb%d" % (n + 1), False)
+    b.blocks[end.name] = end
+    if collect:
+        end.stmts.append(("assign", ("local", "_0"), ("array", [("move", ("local", r)) for r in rs])))
+    else:
+        # release-build semantics of `impl Sum for u64`: wrapping addition (rustc_inherit_overflow_checks:
+        # the dev build panics instead; the overflow is recorded as an event by the obligation)
+        prev = acc
+        for i, r in enumerate(rs):
+            nxt = "_%d" % (2 * n + 3 + i)
+            b.locals[nxt] = dty or "u64"
+            end.stmts.append(("assign", ("local", nxt), ("binop", "Add", ("copy", ("local", prev)), ("copy", ("local", r)))))
+            prev = nxt
+        end.stmts.append(("assign", ("local", "_0"), ("use", ("copy", ("local", prev)))))
+    end.term = ("return",)
+    env = closure
+    if by_ref and not isinstance(closure, Ref):
+        env = Ref(Cell(closure), (), True)
+    return ("__inline__", b, [env] + list(items))
+
+
+@model(r"<(?:std::iter::|core::iter::)?Map<.*> as Iterator>::sum::<(u64|u32|usize)>$")
+def m_map_sum(ex, st, callee, args, dty, m):
+    it = args[0]
+    if not (isinstance(it, Agg) and it.name == "MapIter"):
+        return NotImplemented
+    items = _adaptor_items(ex, it.fields[0])
+    if items is None:
+        return NotImplemented
+    return sum_driver(ex, items, it.fields[1], m.group(1))
+
+
+@model(r"<(?:std::iter::|core::iter::)?Enumerate<.*> as Iterator>::next$")
+def m_enumerate_next(ex, st, callee, args, dty, m):
+    it = deref(ex, args[0])
+    if not (isinstance(it, Agg) and it.name == "EnumIter"):
+        return NotImplemented
+    inner = it.fields[0]
+    seq = deref(ex, inner.fields[0])
+    i = as_int(inner.fields[1])
+    if i >= len(seq.items):
+        return mk_none(dty)
+    inner.fields[1] = u64(i + 1)
+    seq_ref = inner.fields[0]
+    c, p = (seq_ref.cell, seq_ref.path) if isinstance(seq_ref, Ref) else (Cell(seq), ())
+    v = ex.get_path(c, p)
+    while isinstance(v, Ref):
+        c, p = v.cell, v.path
+        v = ex.get_path(c, p)
+    return mk_some(dty, Agg("tuple", "(usize,&T)", [u64(i), Ref(c, p + (("i", u64(i)),))]))
+
+
+@model(r"<(?:std::iter::|core::iter::)?Enumerate<.*> as IntoIterator>::into_iter$")
+def m_enumerate_into_iter(ex, st, callee, args, dty, m):
+    return args[0]
